@@ -97,7 +97,7 @@ def run(ctx, f, rep):
             total += guards_at_yields(f, rep, co, ty)
     rep.floor("R20.4", "yield events examined", total, 10)
     # the accept callback itself
-    cb = [b for b in f.bodies if "Socket::bind::{closure#0}::{closure#0}::{closure#0}" in b.path and b.j.get("coroutine_kind")]
+    cb = hs.accept_callbacks(f)
     for b in cb:
         guards_at_yields(f, rep, b, "accept-callback")
     # R20.5
